@@ -104,7 +104,12 @@ def tlc_jobs(tier):
 
 def run_tlc(jobs, tier):
     def one(j):
-        j["r"] = core.tlc(j["mod"], j["cfg"], workers=j["w"], timeout=3400, **j["kw"])
+        for attempt in (1, 2):
+            j["r"] = core.tlc(j["mod"], j["cfg"], workers=j["w"], timeout=3400, **j["kw"])
+            # a TLC *failure* (not a verdict), e.g. its scratch directory vanished: once more
+            if not (j["r"].error and not j["r"].violated and j["r"].error != "timeout"):
+                break
+            core.log("[C03] TLC failed on %s (%s), attempt %d" % (j["cfg"], str(j["r"].error)[:200], attempt))
         return j
     # heavy jobs first; 16 cores shared by the JVMs
     order = sorted(jobs, key=lambda j: -j["w"])
